@@ -70,8 +70,18 @@ Proof.
   - apply nmem_In in E1. apply In_nremove in E1. destruct E1 as [E1 _]. apply nmem_In in E1. congruence.
   - apply nmem_In in E2. assert (In x (nremove s ss)) by (apply In_nremove; auto). apply nmem_In in H0. congruence.
 Qed.
-Lemma In_todo_cons x s ss : In x (s :: ss) <-> x = s \/ In x ss.
+Lemma In_todo_cons (x s : nat) (ss : list nat) : In x (s :: ss) <-> x = s \/ In x ss.
 Proof. cbn. intuition. Qed.
+
+Lemma todo_match ss : todo (match ss with [] => HIdle | _ :: _ => HSubs ss end) = ss.
+Proof. destruct ss; reflexivity. Qed.
+
+Lemma cnt_in_move x s ss : In s ss -> cnt_in x (s :: nremove s ss) = cnt_in x ss.
+Proof.
+  intros H. destruct (Nat.eq_dec x s) as [->|Hne].
+  - rewrite cnt_in_cons_same. symmetry. apply cnt_in_In. exact H.
+  - rewrite cnt_in_cons_other by exact Hne. apply cnt_in_nremove_other. exact Hne.
+Qed.
 
 Definition done_mark (x : nat) : Prop := True.
 Ltac spec_nat Cnew Cseen Cwin Cone Hf :=
@@ -104,5 +114,196 @@ Proof.
   all: try discriminate.
   all: rewrite ?In_nremove, ?In_todo_cons in *.
   all: try solve [intuition (try discriminate; try lia; try congruence)].
-  all: idtac "left". Show.
-Abort.
+  all: rewrite ?todo_match in *.
+  all: repeat match goal with
+       | |- context [(?a =? ?b)%nat] => destruct (Nat.eqb_spec a b); subst
+       | H : context [(?a =? ?b)%nat] |- _ => destruct (Nat.eqb_spec a b); subst
+       end.
+  all: rewrite ?cnt_in_cons_same in *.
+  all: repeat match goal with
+       | H : ?x <> ?s |- context [cnt_in ?x (?s :: _)] => rewrite (cnt_in_cons_other x s) by exact H
+       | H : ?s <> ?x |- context [cnt_in ?x (?s :: _)] => rewrite (cnt_in_cons_other x s) by congruence
+       | H : ?x <> ?s |- context [cnt_in ?x (nremove ?s _)] => rewrite (cnt_in_nremove_other x s) by exact H
+       | H : ?s <> ?x |- context [cnt_in ?x (nremove ?s _)] => rewrite (cnt_in_nremove_other x s) by congruence
+       end.
+  all: try solve [intuition (try discriminate; try lia; try congruence)].
+  all: repeat match goal with
+       | H : ?a = ?a -> _ |- _ => specialize (H eq_refl)
+       | H : false = true -> _ |- _ => clear H
+       end.
+  all: try solve [intuition (try discriminate; try lia; try congruence)].
+  all: try solve [intuition (rewrite ?In_nremove in *; intuition (try lia; try congruence))].
+  all: repeat match goal with H : _ /\ _ |- _ => destruct H end.
+  all: repeat match goal with
+       | H : ~ In ?x ?l |- context [cnt_in ?x ?l] => rewrite (cnt_in_notin x l H)
+       | H : In ?x ?l |- context [cnt_in ?x ?l] => rewrite (cnt_in_In x l H)
+       end.
+  all: try solve [intuition (try discriminate; try lia; try congruence)].
+  all: try solve [exfalso; match goal with
+         Hex : existsb _ (w_subs_seen ?w) = false, H : in_sub_window (w_spc ?w ?s) = true |- _ =>
+           assert (existsb (fun s => in_sub_window (w_spc w s)) (w_subs_seen w) = true)
+             by (apply existsb_exists; exists s; auto); congruence end].
+  all: try (match goal with E0 : nmem _ _ = true |- _ => apply nmem_In in E0 end).
+  all: cbn [todo] in *.
+  all: try solve [rewrite ?In_nremove; intuition (subst; try tauto; try lia)].
+  all: try solve [constructor; [rewrite In_nremove; tauto|apply NoDup_nremove; assumption]].
+  all: try (rewrite cnt_in_move by assumption; solve [auto]).
+  all: try solve [inversion Cndt; assumption].
+  all: try solve [cbn [In] in *; inversion Cndt; subst; intuition (subst; try tauto; try lia)].
+  - specialize (H4 H H0). rewrite cnt_in_cons_same in H4.
+    inversion Cndt; subst. rewrite (cnt_in_notin s0 ss) by assumption. lia.
+  - specialize (H4 H H0). rewrite cnt_in_cons_other in H4 by congruence. lia.
+Qed.
+
+Lemma invC_init : invC winit.
+Proof.
+  constructor; cbn; intros; try constructor; try discriminate; try contradiction; auto.
+Qed.
+
+Definition no_rc_abort (evs : list wev) : Prop := Forall (fun e => e <> ERcSend false) evs.
+
+Lemma invC_run evs : forall w w', invC w -> no_rc_abort evs -> wrun evs w = Some w' -> invC w'.
+Proof.
+  induction evs as [|e evs IH]; intros w w' C Hn H; cbn in H; [inversion H; subst; exact C|].
+  destruct (wstep w e) eqn:E; [|discriminate]. inversion Hn; subst.
+  eapply IH; [|assumption|exact H]. eapply invC_step; eauto.
+Qed.
+
+
+(* the part of the invariant that holds whether or not a send fails inside handleReconnect *)
+Record invC0 (w : wstate) : Prop := {
+  c0_nd_conf : NoDup (w_conf w);
+  c0_nd_todo : NoDup (todo (w_hpc w));
+  c0_new : forall s, w_spc w s = SNew ->
+            ~ In s (w_conf w) /\ ~ In s (todo (w_hpc w)) /\ sends_since_clear s (w_log w) = 0;
+  c0_seen : forall s, in_sub_window (w_spc w s) = true -> In s (w_subs_seen w);
+  c0_win : w_substraddle w = false -> forall s, in_sub_window (w_spc w s) = true ->
+            ~ In s (todo (w_hpc w)) /\ sends_since_clear s (w_log w) = 0;
+}.
+
+Lemma invC0_step w e w' : invC0 w -> wstep w e = Some w' -> invC0 w'.
+Proof.
+  intros C H.
+  pose proof (c0_new w C) as Cnew; pose proof (c0_seen w C) as Cseen; pose proof (c0_win w C) as Cwin;
+  pose proof I as Cone; pose proof (c0_nd_conf w C) as Cndc; pose proof (c0_nd_todo w C) as Cndt.
+  clear C.
+  destruct e; step_cases H; constructor; wsimp;
+    rewrite ?todo_hnorm; cbn [sends_since_clear todo]; auto.
+  all: try (apply NoDup_nremove; assumption).
+  all: try (intros Hf; try (apply orb_false_elim in Hf; destruct Hf as [Hf Hex])).
+  all: intros.
+  all: try spec_nat Cnew Cseen Cwin Cone Hf.
+  all: clear Cnew Cseen Cwin Cone.
+  all: split_upd.
+  all: repeat match goal with E : w_spc _ _ = _ |- _ => rewrite E in *; clear E end.
+  all: cbn [in_sub_window settled] in *.
+  all: try discriminate.
+  all: rewrite ?In_nremove, ?In_todo_cons in *.
+  all: try solve [intuition (try discriminate; try lia; try congruence)].
+  all: rewrite ?todo_match in *.
+  all: repeat match goal with
+       | |- context [(?a =? ?b)%nat] => destruct (Nat.eqb_spec a b); subst
+       | H : context [(?a =? ?b)%nat] |- _ => destruct (Nat.eqb_spec a b); subst
+       end.
+  all: rewrite ?cnt_in_cons_same in *.
+  all: repeat match goal with
+       | H : ?x <> ?s |- context [cnt_in ?x (?s :: _)] => rewrite (cnt_in_cons_other x s) by exact H
+       | H : ?s <> ?x |- context [cnt_in ?x (?s :: _)] => rewrite (cnt_in_cons_other x s) by congruence
+       | H : ?x <> ?s |- context [cnt_in ?x (nremove ?s _)] => rewrite (cnt_in_nremove_other x s) by exact H
+       | H : ?s <> ?x |- context [cnt_in ?x (nremove ?s _)] => rewrite (cnt_in_nremove_other x s) by congruence
+       end.
+  all: try solve [intuition (try discriminate; try lia; try congruence)].
+  all: repeat match goal with
+       | H : ?a = ?a -> _ |- _ => specialize (H eq_refl)
+       | H : false = true -> _ |- _ => clear H
+       end.
+  all: try solve [intuition (try discriminate; try lia; try congruence)].
+  all: try solve [intuition (rewrite ?In_nremove in *; intuition (try lia; try congruence))].
+  all: repeat match goal with H : _ /\ _ |- _ => destruct H end.
+  all: repeat match goal with
+       | H : ~ In ?x ?l |- context [cnt_in ?x ?l] => rewrite (cnt_in_notin x l H)
+       | H : In ?x ?l |- context [cnt_in ?x ?l] => rewrite (cnt_in_In x l H)
+       end.
+  all: try solve [intuition (try discriminate; try lia; try congruence)].
+  all: try solve [exfalso; match goal with
+         Hex : existsb _ (w_subs_seen ?w) = false, H : in_sub_window (w_spc ?w ?s) = true |- _ =>
+           assert (existsb (fun s => in_sub_window (w_spc w s)) (w_subs_seen w) = true)
+             by (apply existsb_exists; exists s; auto); congruence end].
+  all: try (match goal with E0 : nmem _ _ = true |- _ => apply nmem_In in E0 end).
+  all: cbn [todo] in *.
+  all: try solve [rewrite ?In_nremove; intuition (subst; try tauto; try lia)].
+  all: try solve [constructor; [rewrite In_nremove; tauto|apply NoDup_nremove; assumption]].
+  all: try (rewrite cnt_in_move by assumption; solve [auto]).
+  all: try solve [inversion Cndt; assumption].
+  all: try solve [cbn [In] in *; inversion Cndt; subst; intuition (subst; try tauto; try lia)].
+  constructor.
+Qed.
+
+Lemma invC0_init : invC0 winit.
+Proof.
+  constructor; cbn; intros; try constructor; try discriminate; try contradiction; auto.
+Qed.
+Lemma invC0_run evs : forall w w', invC0 w -> wrun evs w = Some w' -> invC0 w'.
+Proof.
+  induction evs as [|e evs IH]; intros w w' C H; cbn in H; [inversion H; subst; exact C|].
+  destruct (wstep w e) eqn:E; [|discriminate]. eapply IH; [|exact H]. eapply invC0_step; eauto.
+Qed.
+
+(* the ghost flag only ever goes up *)
+Lemma substraddle_mono_step w e w' : wstep w e = Some w' -> w_substraddle w = true -> w_substraddle w' = true.
+Proof. intros H Hs. destruct e; step_cases H; wsimp; try assumption. rewrite Hs. reflexivity. Qed.
+
+Theorem ws_resubscribe_once_partial :
+  forall evs w,
+    wrun evs winit = Some w ->
+    no_rc_abort evs ->                 (* no websocket send fails inside handleReconnect *)
+    w_substraddle w = false ->         (* no reconnect began while a Subscribe() was registering *)
+    forall s, In s (w_conf w) -> settled (w_spc w s) = true ->
+      (* frames eth_subscribe sent for s since the reconnect began + (1 if handleReconnect still has
+         s on its list) = 1; in particular exactly one once handleReconnect is done *)
+      sends_since_clear s (w_log w) + cnt_in s (todo (w_hpc w)) = 1 /\
+      (w_hpc w = HIdle -> sends_since_clear s (w_log w) = 1).
+Proof.
+  intros evs w H Hn Hf s Hin Hs.
+  pose proof (invC_run _ _ _ invC_init Hn H) as C.
+  pose proof (c_one w C Hf s Hin Hs) as E. split; [exact E|].
+  intros Hh. rewrite Hh in E. cbn in E. lia.
+Qed.
+
+(* without the hypothesis the statement is false of the model: Subscribe() registers its
+   subscription (addConfiguredSub), a reconnect snapshots it, Subscribe() goes on to send its own
+   eth_subscribe, and handleReconnect sends another one — both are pending, both get confirmed *)
+Definition resub_witness : list wev :=
+  [ESubCfg 0; EClear; ESubInflight 0; ERcInflight 0; ERcSend true; ESubSend 0 true].
+
+Theorem ws_resubscribe_once_refuted :
+  exists evs w s,
+    wrun evs winit = Some w /\ no_rc_abort evs /\ In s (w_conf w) /\ settled (w_spc w s) = true /\
+    w_hpc w = HIdle /\ sends_since_clear s (w_log w) = 2 /\ length (w_pend w) = 2.
+Proof.
+  exists resub_witness. 
+  destruct (wrun resub_witness winit) as [w|] eqn:E; [|vm_compute in E; discriminate].
+  exists w, 0. split; [reflexivity|]. split.
+  { unfold no_rc_abort, resub_witness. repeat constructor; discriminate. }
+  assert (X : (nmem 0 (w_conf w) && settled (w_spc w 0) &&
+               match w_hpc w with HIdle => true | _ => false end &&
+               (sends_since_clear 0 (w_log w) =? 2)%nat && (length (w_pend w) =? 2)%nat) = true).
+  { revert E. unfold resub_witness. intros E.
+    assert (Some w = wrun resub_witness winit) by (symmetry; exact E).
+    clear E. unfold resub_witness in H.
+    transitivity (match wrun [ESubCfg 0; EClear; ESubInflight 0; ERcInflight 0; ERcSend true; ESubSend 0 true] winit with
+                  | Some w => nmem 0 (w_conf w) && settled (w_spc w 0) &&
+                              match w_hpc w with HIdle => true | _ => false end &&
+                              (sends_since_clear 0 (w_log w) =? 2)%nat && (length (w_pend w) =? 2)%nat
+                  | None => false end).
+    - rewrite <- H. reflexivity.
+    - vm_compute. reflexivity. }
+  repeat (apply andb_prop in X; destruct X as [X ?]).
+  repeat split.
+  - apply nmem_In. assumption.
+  - assumption.
+  - destruct (w_hpc w); try discriminate. reflexivity.
+  - apply Nat.eqb_eq. assumption.
+  - apply Nat.eqb_eq. assumption.
+Qed.
+
